@@ -34,10 +34,20 @@ XfHist == \E v \in {"V1", "V2"}, a \in {"bin1", "unknown"}, p \in MCOkPaths \cup
                 LET s == IF p = "rel1" THEN "s1" ELSE "s2"
                     cc == IF c = "one" /\ v = "V2" THEN "two" ELSE c
                 IN /\ XfAdd(v, a, p, s, cc) /\ hist' = Append(hist, XRec(v, a, p, s, cc))
+\* the per-tree export between adds: base "os" is a prefix of rel1 only (rel2 lives in .../osx), "top" of both
+PathSeq(tok) == CASE tok = "rel1" -> <<"Server", "x86_64", "os", "GPL">> [] tok = "rel2" -> <<"Server", "x86_64", "osx", "README">>
+                  [] OTHER -> <<tok>>
+BaseSeq(b) == IF b = "os" THEN <<"Server", "x86_64", "os">> ELSE <<"Server">>
+XfDump == \E v \in {"V1", "V2"}, b \in {"os", "top"} :
+             /\ XfTreeDump(v, "bin1")
+             /\ hist' = Append(hist, [op |-> "treedump", v |-> v, a |-> "bin1", base |-> BaseSeq(b), out |-> out',
+                                      listed |-> IF <<v, "bin1">> \in DOMAIN files
+                                                 THEN [i \in 1..Len(files[<<v, "bin1">>]) |-> Strip(PathSeq(files[<<v, "bin1">>][i].file), BaseSeq(b))]
+                                                 ELSE <<>>])
 GInit == Init /\ hist = <<>>
 GNext == /\ Len(hist) < D
          /\ CASE Mode = "modmatrix" -> ModMatrix [] Mode = "modhist" -> ModHist
-              [] Mode = "xfmatrix" -> XfMatrix [] Mode = "xfhist" -> XfHist
+              [] Mode = "xfmatrix" -> XfMatrix [] Mode = "xfhist" -> (XfHist \/ XfDump)
 ModsJson == {[v |-> k[1], a |-> k[2], m |-> k[3], koji |-> mods[k].koji, rpms |-> mods[k].rpms,
               paths |-> {[cat |-> c, path |-> mods[k].paths[c]] : c \in DOMAIN mods[k].paths}] : k \in DOMAIN mods}
 FilesJson == {[v |-> k[1], a |-> k[2], items |-> files[k]] : k \in DOMAIN files}
